@@ -279,7 +279,9 @@ class Check(common.Check):
         return {'kind': 'nia', 'user': user, 'init': init, 'counts': counts}
 
     def gen_srv(self, rng):
-        ml = rng.choice([1, 2, 3, 4, 8, rng.randint(1, 32)])
+        ml0 = rng.choice([1, 2, 3, 4, 8, rng.randint(1, 32)])
+        reply = rng.choice([x for x in (1, 2, 3, 4, 8, 16) if x != ml0]) if rng.random() < 0.3 else None
+        ml = max(ml0, reply or 0)          # resources are sized for the larger of the two values
         ic, oc = rng.choice([(2, 2), (0, 2), (8, 8), (rng.randint(0, 4), rng.randint(0, 4))])
         case = {'kind': 'srv', 'max_logins': ml,
                 'audio_buses': ic + oc + rng.choice([ml * 4, rng.randint(ml * 2, ml * 40), 1024 - ic - oc]),
@@ -290,10 +292,22 @@ class Check(common.Check):
                 'reserved_control_buses': rng.choice([0, 0, 1]),
                 'reserved_buffers': rng.choice([0, 0, 1]),
                 'client_id': rng.randrange(ml), 'initial_node_id': 1000}
+        case['max_logins'] = ml0
+        case['client_id'] = rng.randrange(ml0)
+        if reply is not None:
+            # a client attaching to a server started by someone else: the login reply carries the
+            # server's maxLogins, which differs from the client's own options.max_logins
+            case['login_max_logins'] = reply
+            case['client_id'] = rng.randrange(reply)
         ops = []
         for _ in range(rng.randint(3, 40)):
             r = rng.random()
-            if r < 0.2:
+            if r < 0.06:
+                # free_all with multi-number ranges alive, then allocations that need those numbers
+                ops.append(f'buf {rng.randint(2, 4)} 0')
+                ops.append('bfreeall')
+                ops += [f'buf {rng.randint(1, 4)} 0' for _ in range(rng.randint(2, 12))]
+            elif r < 0.2:
                 ops.append(f'abus {rng.randint(1, 4)} {rng.randrange(3)}')
             elif r < 0.4:
                 ops.append(f'cbus {rng.randint(1, 4)} {rng.randrange(3)}')
@@ -348,10 +362,13 @@ class Check(common.Check):
 
     @staticmethod
     def srv_lines(case):
-        vals = [case[f] for f in ('control_buses', 'audio_buses', 'buffers', 'input_channels',
-                                  'output_channels', 'max_logins', 'reserved_control_buses',
-                                  'reserved_audio_buses', 'reserved_buffers', 'client_id',
-                                  'initial_node_id')]
+        eff = dict(case)
+        if case.get('login_max_logins') is not None:     # the value of the login reply is the one in force
+            eff['max_logins'] = case['login_max_logins']
+        vals = [eff[f] for f in ('control_buses', 'audio_buses', 'buffers', 'input_channels',
+                                 'output_channels', 'max_logins', 'reserved_control_buses',
+                                 'reserved_audio_buses', 'reserved_buffers', 'client_id',
+                                 'initial_node_id')]
         lines = ['partnew ' + ' '.join(str(v) for v in vals)]
         slot = {'cbus': 0, 'abus': 1, 'buf': 2}
         for op in case['ops']:
@@ -364,6 +381,8 @@ class Check(common.Check):
                 lines += [f'use {w[1]}', f'freelive {w[2]}']
             elif w[0] == 'refree':
                 lines += [f'use {w[1]}', 'freenone']      # a second free() of an object: nothing happens
+            elif w[0] == 'bfreeall':
+                lines += ['use 2', 'freeall']
             else:
                 lines.append('bad')
         return lines
@@ -408,6 +427,10 @@ class Check(common.Check):
                 next(it, None)
                 next(it, None)
                 res.append('refree ok' if freed[int(w[1])] else 'skip')
+            elif w[0] == 'bfreeall':
+                next(it, None)
+                l = next(it, 'missing')
+                res.append('bfreeall ok' if l.startswith('freeall ok') else l)
         return res
 
     def model(self, cases):
@@ -542,7 +565,20 @@ class Check(common.Check):
         if out and out[0].startswith('server '):
             return {'what': out[0], 'signature': 'srv:server'}
         ml, c = case['max_logins'], case['client_id']
+        if case.get('login_max_logins') is not None:
+            ml = case['login_max_logins']       # the server's value, from the login reply
         io = case['input_channels'] + case['output_channels']
+        # the allocators must be the partition of (client id, maxLogins in force)
+        want = []
+        for total, base, res in ((case['control_buses'], 0, case['reserved_control_buses']),
+                                 (case['audio_buses'] - io, io, case['reserved_audio_buses']),
+                                 (case['buffers'], 0, case['reserved_buffers'])):
+            n = total // ml
+            want.append(f'part {n} {res} {base + n * c}')
+        want.append(f'node {c} {case["initial_node_id"]}')
+        if out[:4] != want:
+            return {'what': f'client {c} of {ml} logins (options.max_logins {case["max_logins"]}): allocators are '
+                            f'{out[:4]}, the partition of this client is {want}', 'signature': 'srv:partition'}
         parts = {}
         for kind, total, base, res in (('cbus', case['control_buses'], 0, case['reserved_control_buses']),
                                        ('abus', case['audio_buses'] - io, io, case['reserved_audio_buses']),
@@ -582,6 +618,8 @@ class Check(common.Check):
                 node_ids.append(int(ow[1]))
             elif w[0] == 'free' and ow[0] == 'free':
                 live[kinds[ow[1]]].pop(int(ow[2]), None)
+            elif w[0] == 'bfreeall' and o == 'bfreeall ok':
+                live['buf'] = {}           # abstract spec: after free_all the whole partition is free
         for x in node_ids:
             if not (c << 26) <= x < ((c + 1) << 26):
                 return {'what': f'node id {x} outside the range of client {c}', 'signature': 'srv:node-range'}
